@@ -298,7 +298,15 @@ def gen_world(rng, cfg, *, nroots=1, hostile=True, links=True, max_files=24, fam
             lp = s2b(roots[0]) + b"/0lnk"
             if lp not in names.used and os.path.dirname(s2b(tgt)) != s2b(roots[0]):
                 names.used.add(lp)
-                w.add_symlink(b2s(lp), b2s(os.path.relpath(s2b(tgt), s2b(roots[0]))))
+                hop = os.path.dirname(s2b(tgt)) + b"/1hop"
+                if rng.random() < 0.5 and hop not in names.used:
+                    # a CHAIN: 0lnk -> <dir of the file>/1hop -> <file> (both relative): resolving one hop only
+                    # yields another link, whose text is valid from its own directory only
+                    names.used.add(hop)
+                    w.add_symlink(b2s(hop), b2s(os.path.basename(s2b(tgt))))
+                    w.add_symlink(b2s(lp), b2s(os.path.relpath(hop, s2b(roots[0]))))
+                else:
+                    w.add_symlink(b2s(lp), b2s(os.path.relpath(s2b(tgt), s2b(roots[0]))))
         for _ in range(rng.choice([0, 0, 1, 2])):
             tgt = rng.choice(regular)
             parent = rng.choice(dirs)
